@@ -998,8 +998,10 @@ theorem putTail_vinv (m : Mem) (E : List (Option Emb)) (hv : VInv m E) (a : PutA
   unfold Mem.putTail
   split
   · simpa [Out.isAck] using hv
-  · simp only [Out.isAck, if_true]
-    exact (addCards_vle _ _ _).vinv (afterAppend_vinv _ _ (appendPut_vinv m E hv a sup reuse hsup hreu hemb) t)
+  · split
+    · simpa [Out.isAck] using hv
+    · simp only [Out.isAck]
+      exact (addCards_vle _ _ _).vinv (afterAppend_vinv _ _ (appendPut_vinv m E hv a sup reuse hsup hreu hemb) t)
 
 theorem putCore_vinv (m : Mem) (E : List (Option Emb)) (hv : VInv m E) (a : PutArgs) (sup reuse : Option Nat) (t : Trace)
     (hsup : ∀ x, sup = some x → x < m.frames.length) (hreu : ∀ x, reuse = some x → x < m.frames.length)
